@@ -300,16 +300,20 @@ theorem compound_with_redirections_roundtrip (n : Nat) (c : CompoundCommand) (rs
       some (some (.compound c rs), tail) :=
   parseCommand_compound n c rs tail ht hrs sp hstart hc
 
-/-- ★ `structure_roundtrip` (partial: the closed fragment has no `for`, `case` or function definition yet).
+/-- ★ `structure_roundtrip` for the closed fragment of the modelled grammar.
     `ProgramOk l rest` is the closed fragment predicate on whole command trees (`Closed.lean`): every leaf is a
     simple command of the proved fragment (`SimpleOk`: its words satisfy the word-level side conditions) in
     front of a command tail, every node is a pipeline (with or without `!`), an and-or list, a `;`/`&` list, a
-    brace group, a subshell, a `while`/`until` loop or an `if` command with any number of `elif`s and an
-    optional `else`, compound commands may carry redirections, nesting is unbounded.  For every such
+    brace group, a subshell, a `while`/`until` loop, an `if` command with any number of `elif`s and an
+    optional `else`, a `for` loop with or without `in words;`, a `case` command (patterns joined by `|`, empty
+    or non-empty bodies, the three terminators) or a function definition `name() compound`; compound
+    commands and function bodies may carry redirections; nesting is unbounded.  Outside (not in the models):
+    here-documents, array assignments, command substitutions / arithmetic / tildes / stray `$` and `\\` in words
+    (so a function name never ends in `$` here), the `function` keyword form.  For every such
     program, printing it and parsing the text with the whole model parser (`parseProgram` =
     `maybe_compound_list` over `Parser::command`, nesting budget taken from the input length) gives the
     program back, unconditionally; the closing `)` stands for whatever ends the list (as inside `$(…)`). -/
-theorem structure_roundtrip_partial (l : List Item) (rest : List Char) (h : ProgramOk l rest) :
+theorem structure_roundtrip (l : List Item) (rest : List Char) (h : ProgramOk l rest) :
     parseProgram (printList false l ++ ')' :: rest) = some (l, ')' :: rest) :=
   parseProgram_rt l rest h
 
@@ -319,6 +323,41 @@ theorem command_roundtrip (n : Nat) (c : Command) (tail : List Char) (h : Comman
     (hd : cdepth c ≤ n) (sp : Bool) :
     parseCommand (n + 1) ((if sp then [' '] else []) ++ (printCommand c ++ tail)) = some (some c, tail) :=
   ((parseCommand_pcOk n).cmd c tail h hd).2 sp
+
+/-- ★ layer 4: `for name [in words;] do list; done`. -/
+theorem for_roundtrip (pc : CmdParser) (name : Word) (values : Option (List Word)) (b : List Item) (hb : b ≠ [])
+    (t : List Char) (hn : NextOk t)
+    (hname : TokWordOk name ((match values with
+      | some vs => ' ' :: ("in".toList ++ (printWordsSp vs ++ [';']))
+      | none => []) ++ (' ' :: ("do".toList ++ ' ' :: (printList true b ++ ' ' :: ("done".toList ++ t))))))
+    (hvals : ∀ vs, values = some vs →
+      ForWordsOk vs (';' :: ' ' :: ("do".toList ++ ' ' :: (printList true b ++ ' ' :: ("done".toList ++ t)))))
+    (h2 : ListRT pc true b (' ' :: ("done".toList ++ t))) (sp : Bool) :
+    parseCompound pc ((if sp then [' '] else []) ++ (printCompound (.forLoop name values b) ++ t)) =
+      some (some (.forLoop name values b), t) :=
+  for_rt pc name values b hb t hn hname hvals h2 sp
+
+/-- ★ layer 4: `case word in (p | q) list;; … esac` (every item printed with its leading `(`; bodies may be
+    empty; terminators `;;`, `;&`, `;|`). -/
+theorem case_roundtrip (pc : CmdParser) (subject : Word) (items : List CaseItem) (t : List Char) (hn : NextOk t)
+    (hs : TokWordOk subject (' ' :: ("in".toList ++ ' ' :: caseText items ("esac".toList ++ t))))
+    (h : CaseItemsRT pc items ("esac".toList ++ t)) (sp : Bool) :
+    parseCompound pc ((if sp then [' '] else []) ++ (printCompound (.caseCmd subject items) ++ t)) =
+      some (some (.caseCmd subject items), t) :=
+  case_rt pc subject items t hn hs h sp
+
+/-- ★ command level: `name() compound [redirections]` is read by `Parser::command` as that function definition
+    (`FnNameOk`: the name is one plain word, not an assignment, not reserved, not ending in `$` — for such a
+    name the printer writes no blank before `()`). -/
+theorem function_roundtrip (n : Nat) (name : Word) (body : CompoundCommand) (rs : List Redir)
+    (tail : List Char) (ht : TailOk tail) (hrs : RedirsOk rs tail)
+    (hname : FnNameOk name ('(' :: ')' :: ' ' :: (printCompound body ++ (printRedirsSp rs ++ tail))))
+    (hhead : HeadOk (printCompound body ++ (printRedirsSp rs ++ tail)))
+    (hc : parseCompound (parseCommand n) (' ' :: (printCompound body ++ (printRedirsSp rs ++ tail))) =
+      some (some body, printRedirsSp rs ++ tail)) (sp : Bool) :
+    parseCommand (n + 1) ((if sp then [' '] else []) ++ (printCommand (.function false name body rs) ++ tail)) =
+      some (some (.function false name body rs), tail) :=
+  parseCommand_function n name body rs tail ht hrs hname hhead hc sp
 
 /-- non-vacuity on a nested program (depth 3: group ⊃ while ⊃ subshell, with `|`, `&&`, `!`, `&`, `if`/`elif`/`else`) -/
 def nested : List Item :=
@@ -349,7 +388,41 @@ theorem nested_ok (rest : List Char) : ProgramOk nested rest := by
 
 example (rest : List Char) :
     parseProgram (printList false nested ++ ')' :: rest) = some (nested, ')' :: rest) :=
-  structure_roundtrip_partial nested rest (nested_ok rest)
+  structure_roundtrip nested rest (nested_ok rest)
+
+/-- non-vacuity with a function definition, `for … in`, `case` (alternatives, empty body, the three
+    terminators, an async item) and a redirection after the function body -/
+
+def nested2 : List Item :=
+  [it1 (.function false (lw "f")
+    (.grouping [it1 (.compound (.forLoop (lw "x") (some [lw "a", lw "b"])
+      [it1 (.compound (.caseCmd (lw "y")
+        [.mk [lw "p", lw "q"] [it1 (leaf "c" [])] .break_,
+         .mk [lw "r"] [] .fallThrough,
+         .mk [lw "s"] [it1 (leaf "d" []) true] .continue_]) [])]) [])])
+    [.normal none .fileOut (lw "o")])]
+
+example : printList false nested2 =
+    "f() { for x in a b; do case y in (p | q) c;; (r) ;& (s) d&;| esac; done; } >o".toList := by
+  decide +kernel
+
+theorem nested2_ok (rest : List Char) : ProgramOk nested2 rest := by
+  simp only [ProgramOk, nested2, it1, lw, ItemsOk, AndOrOk, AndOrRestOk, PipelineOk, CommandsOk, CommandOk,
+    CompoundOk, CaseItemsOk, PatsOk, ForWordsOk, ElifsOk, RedirsOk, pipeRest, aoRest, printRedirsSp,
+    List.nil_append, List.singleton_append, List.cons_append, ne_eq, reduceCtorEq, not_false_eq_true,
+    List.cons_ne_self, and_true, true_and, Bool.false_eq_true, if_false, if_true]
+  and_intros
+  all_goals first
+    | trivial
+    | exact leaf_ok _ _ (by decide) (by decide) (by decide) _ (tailOk_cons _ _ (by decide))
+    | exact tailOk_cons _ _ (by decide)
+    | exact plainArg_tok _ (by decide) _
+    | exact ⟨plainArg_tok _ (by decide) _, plainArg_noAssign _ (by decide), by decide, by decide⟩
+
+
+example (rest : List Char) :
+    parseProgram (printList false nested2 ++ ')' :: rest) = some (nested2, ')' :: rest) :=
+  structure_roundtrip nested2 rest (nested2_ok rest)
 
 /-! ### Instances (kernel evaluation of the whole model parser on printed programs) -/
 
